@@ -369,6 +369,14 @@ def check_case(env, rec, label, sidecar, spec, alpha, thorough):
                             if got_cat != got_df:
                                 rec.violation("C06:dataframe-input-assembles-differently:categorical-columns", sidecar=js,
                                               from_object_columns=got_df[:3], from_categorical_columns=got_cat[:3])
+                            # the same frame with row labels that repeat (two runs glued together without renumbering):
+                            # one annotation per row, in row order
+                            df_rep = df_in.copy()
+                            df_rep.index = [i % 2 for i in range(len(df_rep))]
+                            got_rep = list(TabularInput(df_rep, sidecar=Sidecar(io.StringIO(js))).series_a)
+                            if got_rep != got_df:
+                                rec.violation("C06:dataframe-input-assembles-differently:repeated-row-labels", sidecar=js,
+                                              rows=len(df_in), default_labels=got_df[:3], repeated_labels=got_rep[:3])
                     except Exception as e:
                         rec.violation(f"C06:dataframe-input-raises:{type(e).__name__}:{how}", sidecar=js, error=repr(e)[:200])
                         continue
